@@ -169,7 +169,7 @@ func VH_C14_kill3() { vCrashProgram(3, 64, false) }
 //verif:check C14 stubs=logfs,logfs-create,logfs-segments reach=crash,durable-required,end desc="power-loss model: as VH_C14_kill3 but after the crash only msync'ed data is guaranteed and any subset of later dirty 8-byte words reached disk" bounds="programs of 3 operations; crash point 1..20; segment size 64; word-granular tearing (finer than a real 4 KiB page)" maxdec=3000 maxconc=64
 func VH_C14_powerloss3() { vCrashProgram(3, 64, true) }
 
-//verif:check C14,C10,C06 stubs=logfs,logfs-osfile,logfs-glob reach=crash,no-crash,durable-required,end desc="process-kill crash programs starting from a committed 3-entry log (one segment, or two segments): 3 further operations, crash at any stub boundary, real reopen" bounds="preamble of 3 committed entries in 1 or 2 segments, then programs of 3 operations; crash point 1..20 after the preamble or none" maxdec=3000
+//verif:check C14,C10,C06,C04 stubs=logfs,logfs-osfile,logfs-glob reach=crash,no-crash,durable-required,end desc="process-kill crash programs starting from a committed 3-entry log (one segment, or two segments): 3 further operations, crash at any stub boundary, real reopen" bounds="preamble of 3 committed entries in 1 or 2 segments, then programs of 3 operations; crash point 1..20 after the preamble or none" maxdec=3000
 func VH_C14_kill3_from_committed() { vCrashProgramFrom(1+vChoice(2), 3, 64, false) }
 
 //verif:check C14 tier=thorough stubs=logfs,logfs-create,logfs-segments reach=crash,durable-required,end desc="power-loss crash programs from a committed 3-entry log" bounds="as VH_C14_kill3_from_committed, power-loss model" maxdec=3000 maxconc=64
